@@ -182,6 +182,8 @@ func engineCrashWrite(ctx *Ctx) {
 	if ctx.Thorough {
 		states = append(states, c09State{"notebook-20KB/history-30", c09Notebook(100), c09History(30)})
 	}
+	// a notebook of several hundred KiB (years of use): whatever is done differently for large files is reached only here
+	states = append(states, c09State{"notebook-330KB/history-2", c09Notebook(1500), c09History(2)})
 	caseNo := 0
 	mine := func() bool { caseNo++; return caseNo%ctx.NShards == ctx.Shard }
 	for _, op := range ops {
@@ -278,15 +280,30 @@ func engineCrashWrite(ctx *Ctx) {
 			// flavour 1: the write fails after k bytes (disk full / quota)
 			var ks []int64
 			L := int64(len(newB))
-			if L <= 512 || ctx.Thorough {
+			switch {
+			case L <= 512 || (ctx.Thorough && L <= 40000):
 				for k := int64(0); k <= L; k++ {
 					ks = append(ks, k)
 				}
-			} else {
-				for k := int64(0); k <= L; k += 61 {
+			default:
+				step := int64(61)
+				if L/150 > step {
+					step = L / 150
+				}
+				for k := int64(0); k <= L; k += step {
 					ks = append(ks, k)
 				}
 				ks = append(ks, 1, L-1, L, L+1)
+				// densely around the previous length: a write that extends the file instead of replacing it is cut there
+				if O := int64(len(old)); O > 0 && L > 40000 {
+					d := int64(ctx.Pick(5, 1))
+					for k := O - 8; k <= L+1 && k <= O+4096; k += d {
+						if k >= 0 {
+							ks = append(ks, k)
+						}
+					}
+					ctx.R.Path("efbig-dense-around-previous-length", 1)
+				}
 			}
 			for _, k := range ks {
 				if !mine() {
@@ -443,6 +460,11 @@ func engineCrashWrite(ctx *Ctx) {
 	if ctx.Shard == 0 || ctx.Shard == ctx.NShards/2 {
 		c09BindMounted(ctx, h, base, mainP)
 	}
+	// Flavour 6: the volume that holds the configuration directory runs full: for every number of free pages from none to
+	// enough, with and without temporary files left behind by earlier killed writes (left by really killing such a write).
+	if ctx.Shard == 1%ctx.NShards || ctx.Shard == (ctx.NShards/2+1)%ctx.NShards {
+		c09FullVolume(ctx, h, base, mainP)
+	}
 	ctx.R.Extra["strace_version"] = strings.TrimSpace(strings.SplitN(runOut("strace", "-V"), "\n", 2)[0])
 }
 
@@ -528,6 +550,149 @@ func c09BindMounted(ctx *Ctx, h *Home, base, mainP string) {
 			if s.op.OkMsg != "" && strings.Contains(res.Stdout, s.op.OkMsg) && bytes.Equal(got, s.old) {
 				ctx.R.Violate(vlib.Violation{Property: "C09", Clause: "success-reported-but-not-saved", Path: s.op.Name + "/bind-mounted",
 					Detail: "save printed its success message but the notebook is unchanged", Witness: cs})
+			}
+		}
+	}
+}
+
+func c09FreePages(dir string) int64 {
+	var st syscall.Statfs_t
+	if err := syscall.Statfs(dir, &st); err != nil {
+		return -1
+	}
+	return int64(st.Bavail)
+}
+
+func c09FullVolume(ctx *Ctx, h *Home, base, mainP string) {
+	cfg := filepath.Join(h.Dir, ".config")
+	type sc struct {
+		name   string
+		target func() string
+		old    []byte
+		op     c09Op
+	}
+	scs := []sc{
+		{"notebook on a volume that runs full", h.Personal, c09Notebook(60), c09Op{"save", []string{"save", "--", "echo new", strings.Repeat("long description ", 20)}, "notebook", "saved successfully"}},
+		{"history on a volume that runs full", h.History, c09History(60), c09Op{"search", []string{"--database", mainP, "--all-platforms", "--", "compress directory with a rather long query text to add bytes"}, "history", ""}},
+	}
+	mount := func() bool {
+		os.RemoveAll(h.Dir)
+		os.MkdirAll(cfg, 0o755)
+		os.MkdirAll(h.Cwd, 0o755)
+		if err := syscall.Mount("tmpfs", cfg, "tmpfs", 0, "size=262144"); err != nil {
+			ctx.R.Path("full-volume-unavailable", 1)
+			return false
+		}
+		return true
+	}
+	for si, s := range scs {
+		if ctx.Shard != 1%ctx.NShards && si == 0 && ctx.NShards > 2 { // one scenario per participating shard
+			continue
+		}
+		if ctx.Shard == 1%ctx.NShards && si == 1 && ctx.NShards > 2 {
+			continue
+		}
+		// reference: the complete new content on a roomy volume
+		if !mount() {
+			return
+		}
+		dst := s.target()
+		os.MkdirAll(filepath.Dir(dst), 0o755)
+		os.WriteFile(dst, s.old, 0o644)
+		c09Run(ctx, h, s.op, -1, 0, "")
+		newB, _ := os.ReadFile(dst)
+		syscall.Unmount(cfg, syscall.MNT_DETACH)
+		newKey, _ := c09HistKey(newB)
+		oldKey, _ := c09HistKey(s.old)
+		need := int64(len(newB))/4096 + 2
+		for leftovers := 0; leftovers <= 2; leftovers++ {
+			for f := int64(0); f <= need+1; f++ {
+				if !mount() {
+					return
+				}
+				dst := s.target()
+				os.MkdirAll(filepath.Dir(dst), 0o755)
+				os.WriteFile(dst, s.old, 0o644)
+				// earlier killed writes (killed when about to flush / about to rename): whatever they leave behind stays
+				for i := 0; i < leftovers; i++ {
+					c09RunSys(ctx, h, s.op, -1, []string{"fsync", "renameat"}[i%2], 1, "")
+				}
+				if ents, _ := os.ReadDir(filepath.Dir(dst)); len(ents) > 1 {
+					ctx.R.Path("full-volume-with-leftover-files", 1)
+				}
+				old, _ := os.ReadFile(dst)
+				if !bytes.Equal(old, s.old) { // the killed writes already completed or damaged it: reported by the other flavours
+					if k, ok := c09HistKey(old); !(s.op.Target == "history" && ok && (k == newKey || k == oldKey)) && !bytes.Equal(old, newB) {
+						syscall.Unmount(cfg, syscall.MNT_DETACH)
+						continue
+					}
+				}
+				// ballast: leave exactly f free pages
+				ballast := filepath.Join(cfg, "ballast")
+				size := int64(0)
+				for try := 0; try < 6; try++ {
+					free := c09FreePages(cfg)
+					if free == f {
+						break
+					}
+					size += (free - f) * 4096
+					if size < 0 {
+						size = 0
+					}
+					fh, err := os.OpenFile(ballast, os.O_CREATE|os.O_WRONLY, 0o644)
+					if err != nil {
+						break
+					}
+					fh.Truncate(0)
+					fh.Write(make([]byte, size))
+					fh.Close()
+				}
+				free := c09FreePages(cfg)
+				cs := map[string]interface{}{"scenario": s.name, "flavour": "volume-full", "free_pages_requested": f, "free_pages": free, "leftover_killed_writes": leftovers,
+					"old_len": len(old), "new_len": len(newB)}
+				ctx.R.Begin(cs)
+				ctx.R.Eval(1)
+				res := c09Run(ctx, h, s.op, -1, 0, "")
+				got, rerr := os.ReadFile(dst)
+				syscall.Unmount(cfg, syscall.MNT_DETACH)
+				ctx.R.Path("full-volume-runs", 1)
+				ctx.R.Nontriv("full", s.name, leftovers, f)
+				if bad, why := res.Crashed(); bad {
+					ctx.R.Violate(vlib.Violation{Property: "C09", Clause: "crash-on-write-failure", Path: s.op.Name + "/volume-full", Detail: why, Witness: map[string]interface{}{"case": cs, "stderr": vlib.Trunc(res.Stderr, 1200)}})
+					continue
+				}
+				state := "torn"
+				switch {
+				case rerr != nil:
+				case bytes.Equal(got, old):
+					state = "old"
+				case s.op.Target == "notebook" && bytes.Equal(got, newB):
+					state = "new"
+				case s.op.Target == "history":
+					if k, ok := c09HistKey(got); ok && k == newKey {
+						state = "new"
+					} else if ok && k == oldKey {
+						state = "old"
+					}
+				}
+				ctx.R.Path("after-volume-full-"+state, 1)
+				if state == "torn" {
+					detail := fmt.Sprintf("%s: with %d free pages and %d earlier killed writes the file holds %d bytes: neither the complete previous content (%d bytes) nor the complete new content (%d bytes)",
+						s.name, free, leftovers, len(got), len(old), len(newB))
+					if s.op.Target == "notebook" {
+						if db, err := database.LoadDatabase(dst); err != nil {
+							detail += "; notebook no longer loads"
+						} else {
+							detail += fmt.Sprintf("; notebook parses with %d entries", len(db.Commands))
+						}
+					}
+					ctx.R.Violate(vlib.Violation{Property: "C09", Clause: "torn-file", Path: s.op.Name + "/volume-full", Detail: detail,
+						Witness: map[string]interface{}{"case": cs, "stdout": vlib.Trunc(res.Stdout, 300), "file_after_hex": fmt.Sprintf("%x", vlib.Trunc(string(got), 200))}})
+				}
+				if s.op.OkMsg != "" && strings.Contains(res.Stdout, s.op.OkMsg) && state != "new" {
+					ctx.R.Violate(vlib.Violation{Property: "C09", Clause: "success-reported-but-not-saved", Path: s.op.Name + "/volume-full",
+						Detail: fmt.Sprintf("save printed its success message but the notebook is %s", state), Witness: cs})
+				}
 			}
 		}
 	}
